@@ -18,7 +18,8 @@ InitState == [heap |-> EmptyHeap, obs |-> NoObs,
               eqs |-> NoObs,        \* <<a, b>> -> last answer of a == b
               stored |-> NoObs,     \* <<cache object, key>> -> identity of the cached map
               nb |-> 0,             \* trees built so far (identities of CachedSource nodes)
-              tc |-> NoObs]         \* TreeC: <<cache id, columns, final>> -> what that cache stores
+              tc |-> NoObs,         \* TreeC: <<cache id, columns, final>> -> what that cache stores
+              ix |-> NoObs]         \* IndexM: register holding a ReplaceSource -> [idx, flag] of its lazily sorted index
 
 Put(f, k, v) == [x \in DOMAIN f \cup {k} |-> IF x = k THEN v ELSE f[x]]
 
@@ -69,7 +70,44 @@ TreeCApplies(r, st) ==
   /\ LET t == st.heap[r.r]
      IN "cached" \in Kinds(t) /\ TreeCDomain(t) /\ SharedNamesAgreeInTree(t)
 
-NextState(r, st) ==
+(* The lazily sorted index of the ReplaceSource a register holds (IndexM): *)
+(* pushes clear the flag, every observer that reads through the index sorts *)
+(* first when the flag is clear, clones copy; anything else - a panic, a    *)
+(* concurrent program, a register built from another register - and the     *)
+(* register is no longer followed.                                          *)
+IxDrop(f, k) == [x \in DOMAIN f \ {k} |-> f[x]]
+IxSorts(r) == r.op \in {"source", "rope", "buffer", "size", "writer", "stream", "map", "hash", "debug"}
+IxReg(r) == IF r.op \in {"build", "clone"} THEN r.dst ELSE r.r
+IxNext(r, st) ==
+  CASE r.op = "begin" -> NoObs
+    [] "tid" \in DOMAIN r -> NoObs
+    [] r.op = "build" ->
+         IF Ok(r) /\ r.tree.k = "replace"
+           THEN Put(st.ix, r.dst, [idx |-> <<>>, flag |-> r.tree.repls = <<>>])
+           ELSE IxDrop(st.ix, r.dst)
+    [] r.op = "clone" ->
+         IF Ok(r) /\ r.src \in DOMAIN st.ix THEN Put(st.ix, r.dst, st.ix[r.src])
+         ELSE IxDrop(st.ix, r.dst)
+    [] r.op = "replace" ->
+         IF r.r \notin DOMAIN st.ix THEN st.ix
+         ELSE IF Ok(r) THEN Put(st.ix, r.r, [st.ix[r.r] EXCEPT !.flag = FALSE])
+         ELSE IxDrop(st.ix, r.r)
+    [] IxSorts(r) ->
+         IF r.r \notin DOMAIN st.ix THEN st.ix
+         ELSE IF ~Ok(r) THEN IxDrop(st.ix, r.r)
+         ELSE IF st.ix[r.r].flag THEN st.ix
+         ELSE Put(st.ix, r.r, [idx |-> StableOrder(st.heap[r.r].repls), flag |-> TRUE])
+    [] OTHER -> st.ix
+IxChecks(r, st) ==
+  IF "ix" \in DOMAIN r /\ "tid" \notin DOMAIN r /\ (r.op \in {"build", "clone", "replace"} \/ IxSorts(r))
+     /\ IxReg(r) \in DOMAIN IxNext(r, st)
+    THEN {<<"DRIFT", "replace_index_follows_IndexM">>} ELSE {}
+IxHolds(r, st) ==
+  LET m == IxNext(r, st)[IxReg(r)]
+  IN /\ r.ix.flag = m.flag
+     /\ r.ix.idx = [i \in 1..Len(m.idx) |-> m.idx[i] - 1]
+
+NextState0(r, st) ==
   CASE r.op = "begin" -> InitState
     [] r.op = "build" /\ Ok(r) ->
          [st EXCEPT !.heap[r.dst] = Close(Uniq(r.tree, <<st.nb>>), st.heap), !.nb = @ + 1,
@@ -105,6 +143,8 @@ NextState(r, st) ==
                                    ELSE MapC(st.heap[r.r], r.columns, @).cs)
                              ELSE @]
     [] OTHER -> st
+
+NextState(r, st) == [NextState0(r, st) EXCEPT !.ix = IxNext(r, st)]
 
 -----------------------------------------------------------------------------
 (* helpers over stream records                                              *)
@@ -645,7 +685,7 @@ Checks(r, st) ==
   ELSE IF r.op = "died" THEN {<<"C17", "no_abort_or_hang">>}
   ELSE IF r.oc = "harness" THEN {<<"TOOL", "harness_error">>}
   ELSE IF ~Ok(r) THEN {<<"C17", "no_panic">>} \cup C19Checks(r)
-  ELSE {<<"C17", "no_panic">>} \cup C10Checks(r, st) \cup C14Checks(r, st) \cup C19Checks(r)
+  ELSE {<<"C17", "no_panic">>} \cup IxChecks(r, st) \cup C10Checks(r, st) \cup C14Checks(r, st) \cup C19Checks(r)
        \cup C18Checks(r, st) \cup
     CASE r.op = "source" ->
            {<<"C07", "source_is_text">>} \cup
@@ -945,6 +985,7 @@ Holds(c, r, st) ==
                  /\ Full(model.chunks[i].a) = Full(mine[i].a)
             /\ model.end = r.out.end
     [] c = <<"DRIFT", "hash_feed_follows_HashM">> -> r.out.feed = Blank(Feed(t))
+    [] c = <<"DRIFT", "replace_index_follows_IndexM">> -> IxHolds(r, st)
     [] c = <<"DRIFT", "lock_refuses_as_modelled">> -> r.waited
     [] c = <<"DRIFT", "schedule_replayed">> ->
          /\ r.outcome = "completed"
